@@ -115,6 +115,41 @@ pub fn render_full(t: &T) -> String {
     }
 }
 
+/// Third rendering: fully parenthesised with every token in its *other* spelling - `per` for `/`,
+/// U+2212 for `-` (binary and unary), U+2215 for `|`, `**` for `^` and vice versa - and a trailing
+/// comment.  `None` when the tree has no token with a second spelling.
+pub fn render_alt(t: &T) -> Option<String> {
+    fn go(t: &T, used: &mut bool) -> String {
+        match t {
+            T::Lit(s) => s.clone(),
+            T::Neg(x) => {
+                *used = true;
+                format!("\u{2212}({})", go(x, used))
+            }
+            T::Pos(x) => format!("+({})", go(x, used)),
+            T::Bin(op, a, b) => {
+                let sy = match op {
+                    Op::Sub => " \u{2212} ",
+                    Op::Div => " per ",
+                    Op::Pipe => "\u{2215}",
+                    Op::Pow => "**",
+                    Op::StarStar => "^",
+                    o => return format!("({}){}({})", go(a, used), sym(*o), go(b, used)),
+                };
+                *used = true;
+                format!("({}){}({})", go(a, used), sy, go(b, used))
+            }
+        }
+    }
+    let mut used = false;
+    let s = go(t, &mut used);
+    if used {
+        Some(format!("{} // comment", s))
+    } else {
+        None
+    }
+}
+
 fn starts_with_sign(t: &T) -> bool {
     match t {
         T::Neg(_) | T::Pos(_) => true,
@@ -337,6 +372,9 @@ fn leaves_full() -> Vec<String> {
         "340282366920938463463374607431768211457",
         "1e30",
         "-1",
+        // far outside the f64 range: exact arithmetic neither underflows nor overflows
+        "1e-400",
+        "1e400",
     ]
     .iter()
     .map(|s| s.to_string())
@@ -581,7 +619,7 @@ impl Space for C01 {
         Meta {
             id: "C01",
             level: "exploration",
-            rule: "every expression tree with <=2 (quick) / <=3 (thorough) binary operator nodes over 14 operators (+ - * / | juxtaposition ^ ** mod << >> and or xor), optional unary sign, plus the sweep `a op k` for 8 operators x 6 bases x every integer k in -130..130 (word-size boundaries 31/32/63/64/127/128), and a boundary-value literal alphabet (all notations: decimal/fraction/exponent/hex/octal/binary; a `_` or U+2009 digit separator at every accepted position of 17 literals - integer part, fraction, after the point, around the exponent marker, after a radix prefix - singly and all at once; 2^64+-1, 2^128+1, 1e30, 2^4096+1, 1e-40); each rendered fully parenthesised AND minimally parenthesised per the manual's precedence table, evaluated by rink and by an independent BigRational evaluator. Non-trivial = the reference defines a value or an undefined-case (not skipped as fractional-exponent/expensive); distinct = by rendered text".into(),
+            rule: "every expression tree with <=2 (quick) / <=3 (thorough) binary operator nodes over 14 operators (+ - * / | juxtaposition ^ ** mod << >> and or xor), optional unary sign, plus the sweep `a op k` for 8 operators x 6 bases x every integer k in -130..130 (word-size boundaries 31/32/63/64/127/128), and a boundary-value literal alphabet (all notations: decimal/fraction/exponent/hex/octal/binary; a `_` or U+2009 digit separator at every accepted position of 17 literals - integer part, fraction, after the point, around the exponent marker, after a radix prefix - singly and all at once; 2^64+-1, 2^128+1, 1e30, 2^4096+1, 1e-40, 1e-400 and 1e400 beyond the f64 range); each rendered fully parenthesised, minimally parenthesised per the manual's precedence table, AND fully parenthesised with every token in its other spelling (`per`, U+2212 minus, U+2215 division slash, `**` <-> `^`, trailing `// comment`), evaluated by rink and by an independent BigRational evaluator. Non-trivial = the reference defines a value or an undefined-case (not skipped as fractional-exponent/expensive); distinct = by rendered text".into(),
             assumptions: vec![
                 "num-bigint/num-rational arithmetic is correct (shared trusted base)".into(),
                 "explicit `*` associates with `/` at one level, left to right (as the repository's own parser tests pin)".into(),
@@ -614,7 +652,11 @@ impl Space for C01 {
         let ctx = self.ctx.get(fresh_ctx);
         let mut out = CaseOut::ok("");
         let mut outcome = String::new();
-        for (which, q) in [("min", render_min(&t)), ("full", render_full(&t))] {
+        let mut renderings = vec![("min", render_min(&t)), ("full", render_full(&t))];
+        if let Some(a) = render_alt(&t) {
+            renderings.push(("alternative-spelling", a));
+        }
+        for (which, q) in renderings {
             let got = match observe(ctx, &q) {
                 Ok(g) => g,
                 Err(e) => {
